@@ -19,6 +19,25 @@ var intrinsics map[string]intrinsic
 func init() {
 	intrinsics = map[string]intrinsic{
 		"fmt.Errorf":  extErrorf,
+		// errors.Unwrap / errors.Is over the engine's error values (fmt.Errorf with %w keeps its operand);
+		// user-defined Unwrap/Is methods are not consulted (none in the code under check)
+		"errors.Unwrap": func(fr *frame, a []value) value { return errUnwrap(a[0]) },
+		"errors.Is": func(fr *frame, a []value) value {
+			in := fr.in
+			target := a[1]
+			errT := types.Universe.Lookup("error").Type()
+			for e := a[0]; ; {
+				ei, ok := e.(iface)
+				if !ok || ei.t == nil {
+					ti, _ := target.(iface)
+					return in.tc.Bool(ti.t == nil)
+				}
+				if in.decideBool(in.equals(errT, e, target), "errors.Is") {
+					return in.tc.Bool(true)
+				}
+				e = errUnwrap(e)
+			}
+		},
 		"fmt.Sprintf": extSprintf,
 		"fmt.Sprint":  func(fr *frame, a []value) value { return fr.in.strConst("<fmt.Sprint>") },
 		"fmt.Printf":  func(fr *frame, a []value) value { return tuple{fr.in.tc.Const(64, 0), iface{}} },
@@ -49,6 +68,45 @@ func init() {
 		"(*sync.WaitGroup).Done": func(fr *frame, a []value) value { fr.in.wgAdd(a[0].(*value), -1); return nil },
 		"(*sync.WaitGroup).Wait": func(fr *frame, a []value) value { fr.in.wgWait(a[0].(*value)); return nil },
 		"(*sync.Once).Do":        extOnceDo,
+		// sync.Map: an association list per receiver (keys compared as interface values); every
+		// operation is one atomic step at a scheduling point
+		"(*sync.Map).Load": func(fr *frame, a []value) value {
+			m := fr.in.syncMapOf(a[0])
+			if i := fr.in.mapFind(m, a[1]); i >= 0 {
+				return tuple{copyVal(m.vals[i]), fr.in.tc.Bool(true)}
+			}
+			return tuple{iface{}, fr.in.tc.Bool(false)}
+		},
+		"(*sync.Map).Store": func(fr *frame, a []value) value {
+			fr.in.mapUpdate(fr.in.syncMapOf(a[0]), a[1], a[2])
+			return nil
+		},
+		"(*sync.Map).LoadOrStore": func(fr *frame, a []value) value {
+			m := fr.in.syncMapOf(a[0])
+			if i := fr.in.mapFind(m, a[1]); i >= 0 {
+				return tuple{copyVal(m.vals[i]), fr.in.tc.Bool(true)}
+			}
+			fr.in.mapUpdate(m, a[1], a[2])
+			return tuple{copyVal(a[2]), fr.in.tc.Bool(false)}
+		},
+		"(*sync.Map).LoadAndDelete": func(fr *frame, a []value) value {
+			m := fr.in.syncMapOf(a[0])
+			if i := fr.in.mapFind(m, a[1]); i >= 0 {
+				v := m.vals[i]
+				m.keys = append(m.keys[:i:i], m.keys[i+1:]...)
+				m.vals = append(m.vals[:i:i], m.vals[i+1:]...)
+				return tuple{v, fr.in.tc.Bool(true)}
+			}
+			return tuple{iface{}, fr.in.tc.Bool(false)}
+		},
+		"(*sync.Map).Delete": func(fr *frame, a []value) value {
+			m := fr.in.syncMapOf(a[0])
+			if i := fr.in.mapFind(m, a[1]); i >= 0 {
+				m.keys = append(m.keys[:i:i], m.keys[i+1:]...)
+				m.vals = append(m.vals[:i:i], m.vals[i+1:]...)
+			}
+			return nil
+		},
 
 		"path/filepath.Join": extFilepathJoin,
 
@@ -105,6 +163,19 @@ func (e *Engine) namedType(pkg, name string) types.Type {
 		panic(engineError{"type not found: " + pkg + "." + name})
 	}
 	return m.Type()
+}
+
+func errUnwrap(e value) value {
+	ei, ok := e.(iface)
+	if !ok || ei.t == nil {
+		return iface{}
+	}
+	if p, ok := ei.t.(*types.Pointer); ok {
+		if n, ok := p.Elem().(*types.Named); ok && n.Obj().Name() == "wrapError" && n.Obj().Pkg() != nil && n.Obj().Pkg().Path() == "fmt" {
+			return (*(ei.v.(*value))).(structure)[1]
+		}
+	}
+	return iface{}
 }
 
 func extErrorf(fr *frame, args []value) value {
@@ -449,6 +520,20 @@ func extB64Encode(fr *frame, args []value) value {
 		return in.strConst(enc.EncodeToString(cb))
 	}
 	panic(engineError{"base64 encoding of symbolic bytes that are not a digest"})
+}
+
+func (in *Interp) syncMapOf(recv value) *mapV {
+	p, ok := recv.(*value)
+	if !ok || p == nil {
+		in.targetPanicStr("runtime error: invalid memory address or nil pointer dereference (*sync.Map)")
+	}
+	in.yield("syncmap")
+	m := in.sched.syncMaps[p]
+	if m == nil {
+		m = &mapV{keyT: types.NewInterfaceType(nil, nil)}
+		in.sched.syncMaps[p] = m
+	}
+	return m
 }
 
 func extOnceDo(fr *frame, args []value) value {
